@@ -42,6 +42,9 @@ pub enum Step {
     KillAll,
     /// the network cuts one established session (the k-th newest); the others stay healthy
     KillOne(u8),
+    /// a UDP association through the same client: one datagram out, the target answers with an
+    /// empty datagram (which ends the client's relay loop) - the session it ran on stays healthy
+    UdpEmptyReply,
 }
 
 #[derive(Clone, Debug, Serialize, Deserialize)]
@@ -166,7 +169,7 @@ impl Family for ReuseFam {
         "reuse"
     }
     fn strategy(&self, _tier: Tier) -> BoxedStrategy<ReuseCase> {
-        let step = prop_oneof![8 => Just(Step::Seq), 2 => (2u8..6).prop_map(Step::Burst), 2 => (8u8..20).prop_map(Step::Burst), 1 => Just(Step::Refused), 1 => Just(Step::KillAll), 2 => (0u8..3).prop_map(Step::KillOne)];
+        let step = prop_oneof![8 => Just(Step::Seq), 2 => (2u8..6).prop_map(Step::Burst), 2 => (8u8..20).prop_map(Step::Burst), 1 => Just(Step::Refused), 1 => Just(Step::KillAll), 2 => (0u8..3).prop_map(Step::KillOne), 1 => Just(Step::UdpEmptyReply)];
         let step_t = prop_oneof![8 => Just(Step::Seq), 2 => (2u8..4).prop_map(Step::Burst), 4 => prop_oneof![Just(5u8), Just(25), Just(35)].prop_map(Step::Pause), 1 => Just(Step::Refused)];
         prop_oneof![
             2 => (0usize..=3, proptest::collection::vec(step, 2..14)).prop_map(|(min_idle, steps)| ReuseCase { min_idle, steps, short_timers: false }),
@@ -187,6 +190,9 @@ impl Family for ReuseFam {
             ReuseCase { min_idle: 2, steps: vec![Step::Burst(4), Step::KillAll, Step::Seq, Step::Burst(3), Step::KillAll, Step::Seq], short_timers: false },
             // one of several pooled sessions is cut (the newest / an older one): the others are still reused
             ReuseCase { min_idle: 3, steps: vec![Step::Burst(3), Step::KillOne(0), Step::Seq], short_timers: false },
+            // a UDP association that ends (empty reply) and TCP requests share the client's sessions
+            ReuseCase { min_idle: 1, steps: vec![Step::UdpEmptyReply, Step::Seq, Step::Seq], short_timers: false },
+            ReuseCase { min_idle: 1, steps: vec![Step::Seq, Step::UdpEmptyReply, Step::Seq], short_timers: false },
             ReuseCase { min_idle: 3, steps: vec![Step::Burst(3), Step::KillOne(1), Step::Seq], short_timers: false },
             ReuseCase { min_idle: 3, steps: vec![Step::Burst(4), Step::KillOne(0), Step::KillOne(0), Step::Seq, Step::Seq], short_timers: false },
             // a quiet period longer than the idle timeout: the reaper keeps min idle sessions for reuse
@@ -281,6 +287,34 @@ impl Family for ReuseFam {
                             dead_in_pool = true;
                             continue;
                         }
+                        Step::UdpEmptyReply => {
+                            n += 1;
+                            peak = peak.max(1);
+                            // a target that answers every datagram with an empty one
+                            let tsock = tokio::net::UdpSocket::bind(SocketAddr::new(IpAddr::V4(worker_ip_n(40)), 0)).await.map_err(|e| infra(format!("udp target bind: {e}")))?;
+                            let taddr = tsock.local_addr().map_err(|e| infra(e.to_string()))?;
+                            let tt = tokio::spawn(async move {
+                                let mut b = vec![0u8; 2048];
+                                while let Ok((_, from)) = tsock.recv_from(&mut b).await {
+                                    let _ = tsock.send_to(&[], from).await;
+                                }
+                            });
+                            let local = format!("{}:0", worker_ip());
+                            let assoc = match tokio::time::timeout(Duration::from_secs(40), client.create_udp_proxy(&local, taddr)).await {
+                                Ok(Ok(a)) => a,
+                                other => return Err(Fail::plain("C13.serve", format!("create_udp_proxy failed: {:?}", other.map(|r| r.map_err(|e| e.to_string()))))),
+                            };
+                            let app = tokio::net::UdpSocket::bind(SocketAddr::new(IpAddr::V4(worker_ip()), 0)).await.map_err(|e| infra(format!("app udp bind: {e}")))?;
+                            let _ = app.send_to(b"one datagram", assoc).await;
+                            tokio::time::sleep(Duration::from_millis(400)).await;
+                            tt.abort();
+                            let dialled = fwd.accepted.load(Ordering::SeqCst) - before;
+                            if pooled > 0 && dialled > 0 {
+                                return Err(Fail::new("C13.reuse", "C13.reuse:pooled-session-not-used", format!("the UDP association (step {si}) opened {dialled} new TLS connection(s) although {pooled} pooled session(s) are healthy")));
+                            }
+                            pooled += 2 * dialled as i64 - 1;
+                            // (the association is over; nothing of it may cost the session it ran on)
+                        }
                         Step::KillOne(k) => {
                             let live_before = fwd.live.load(Ordering::SeqCst);
                             if !fwd.kill_one(*k as usize) {
@@ -372,6 +406,7 @@ impl Family for ReuseFam {
         out.class_if(case.min_idle == 0, "min_idle=0");
         out.class_if(case.steps.windows(2).any(|w| matches!(w[0], Step::KillAll) && matches!(w[1], Step::Seq | Step::Burst(_))), "request-after-all-sessions-cut");
         out.class_if(case.steps.windows(2).any(|w| matches!(w[0], Step::KillOne(_)) && matches!(w[1], Step::Seq)), "request-after-one-session-cut");
+        out.class_if(case.steps.windows(2).any(|w| matches!(w[0], Step::UdpEmptyReply) && matches!(w[1], Step::Seq)), "request-after-a-udp-association-ended");
         out.class_if(case.steps.windows(2).any(|w| matches!(w[0], Step::Refused) && matches!(w[1], Step::Seq)), "refused-then-sequential");
         out.class_if(case.steps.iter().any(|s| matches!(s, Step::Pause(d) if *d >= 20)) && case.short_timers, "quiet-period>idle-timeout");
         Ok(out)
